@@ -56,7 +56,7 @@ class Dm14Query:
             self.state = QueryState.WAIT_FOR_OPER_COMPLETE
         else:
             self.state = QueryState.WAIT_FOR_DM16
-            self._ca.unsubscribe(self._parse_dm15)
+            # (the DM15 handler stays subscribed: the device may answer 'operation failed' instead of the data)
             self._ca.subscribe(self._parse_dm16)
 
     def _end_of_transaction(self) -> None:
@@ -185,7 +185,6 @@ class Dm14Query:
         # assert object_count == self.object_count
         self.mem_data = data[1 : length + 1]
         self._ca.unsubscribe(self._parse_dm16)
-        self._ca.subscribe(self._parse_dm15)
         self.state = QueryState.WAIT_FOR_OPER_COMPLETE
 
     def _values_to_bytes(self, values: list) -> bytearray:
